@@ -56,6 +56,38 @@ func WorkerMain() {
 		return
 	}
 	jobs := p.Jobs(*tier)
+	if d := os.Getenv("VERIF_DIFF_DEFAULT"); d != "" {
+		// debugging aid: run the named job's scenario twice under the default schedule of variant N
+		// ("<job substring>:<N>") with a full trace and show the first difference
+		sp := strings.SplitN(d, ":", 2)
+		v := 1
+		if len(sp) == 2 {
+			fmt.Sscan(sp[1], &v)
+		}
+		for _, j := range jobs {
+			if j.Scenario == nil || !strings.Contains(j.Name, sp[0]) {
+				continue
+			}
+			sc := *j.Scenario
+			sc.Opt.Trace = true
+			o1 := explore.RunDefault(&sc, v)
+			o2 := explore.RunDefault(&sc, v)
+			fmt.Printf("%s: %d / %d trace lines, kinds %s / %s\n", j.Name, len(o1.Trace), len(o2.Trace), o1.Kind, o2.Kind)
+			for i := 0; i < len(o1.Trace) && i < len(o2.Trace); i++ {
+				if o1.Trace[i] != o2.Trace[i] {
+					for k := i - 6; k <= i+3; k++ {
+						if k >= 0 && k < len(o1.Trace) && k < len(o2.Trace) {
+							fmt.Printf("%5d A %s\n      B %s\n", k, o1.Trace[k], o2.Trace[k])
+						}
+					}
+					break
+				}
+			}
+			return
+		}
+		fmt.Println("no such job")
+		return
+	}
 	if *list {
 		var out []jobInfo
 		for i, j := range jobs {
